@@ -622,7 +622,9 @@ pub fn check_step(s: &Step, tr: &mut Tracker, viols: &mut Vec<Viol>) -> Decides 
                     let mut class = "unexpected-departure";
                     if evicting_op {
                         class = "evicted-too-much";
-                        // the new / mutated entry itself gone?
+                    } else {
+                        // not an eviction for room: the map lost a key nobody removed
+                        props |= C04;
                     }
                     match &s.op.kind {
                         OpKind::TryInsert { .. } => props |= C10,
